@@ -26,8 +26,9 @@ func TestMain(m *testing.M) {
 	// Publishing goes to private channels, never to ZMQ sockets.
 	PubRecordsChan = make(chan []*DataRecord, 1)
 	PubSummariesChan = make(chan []*DataRecord, 1)
+	drain := clientMessageChan // bind now: a harness may later replace the global with its own channel
 	go func() {
-		for range clientMessageChan {
+		for range drain {
 		}
 	}()
 	if os.Getenv("VERIF_REPLAY") == "" || os.Getenv("VERIF_LOGS") == "" {
